@@ -40,10 +40,12 @@ GBodies(g, h) == {Rule("", "allow", {g}, {"a3"}, {"s80"}, ""), Rule("", "allow",
                   Rule("", "allow", {"a1", "a2"}, {"a3"}, {"s80"}, "")}
 Members == {{"a1"}, {"a1", "a2"}, {"a2", "a3"}}
 Used(rs, cand) == {n \in cand : \E i \in DOMAIN rs : n \in rs[i].src \cup rs[i].dst}
+\* rs: every target rule asks for another service (s22), so that rules sharing a group are all replaced as a whole
+Resvc(seq) == [i \in DOMAIN seq |-> [seq[i] EXCEPT !.svc = {"s22"}]]
 P2 ==
-  \E a \in InjSeqs(GBodies("g0", "g1"), 2), b \in InjSeqs(GBodies("g0", "g1"), 2), da, db, ta, tb \in Members :
+  \E a \in InjSeqs(GBodies("g0", "g1"), 2), b \in InjSeqs(GBodies("g0", "g1"), 2), da, db, ta, tb \in Members, rs \in BOOLEAN :
     /\ dev = Cfg(Named(a, DevNames), [n \in Used(a, {"g0", "g1"}) |-> IF n = "g0" THEN da ELSE db], NoFn, AddrVal, SvcVal)
-    /\ tgt = Cfg(Named(b, TgtNames), [n \in Used(b, {"g0", "g1"}) |-> IF n = "g0" THEN ta ELSE tb], NoFn, AddrVal, SvcVal)
+    /\ tgt = Cfg(Named(IF rs THEN Resvc(b) ELSE b, TgtNames), [n \in Used(b, {"g0", "g1"}) |-> IF n = "g0" THEN ta ELSE tb], NoFn, AddrVal, SvcVal)
 
 (* P4: ties (C16): the vsys holds two or three identical address-groups that no rule uses; the target *)
 (* adds or rewrites rules whose groups may have exactly these members                                 *)
